@@ -27,3 +27,45 @@ contract(F, "_dedup", props=["C15"], params={"inp": "sym"},
          ])},
          notes=["py_eq is assumed reflexive and symmetric (an equivalence is not needed for these clauses)"],
          cover=["returned"])
+
+
+# ---- Union normalisation, step 1: nested unions are unfolded in place, nothing else is touched, order is kept ----------------------
+# (C15: "union members ... nested": Union[Union[A, B], C] and Union[A, B, C] get the same member list)
+def _unfold_scenarios(mod):
+    import typing as t
+    out = []
+    pools = [[int, str], [t.Union[int, str], bytes], [t.Optional[int], t.Union[str, bytes], float], [], [t.List[t.Union[int, str]]],
+             [t.Union[int, str], t.Union[int, bytes]]]
+    for hints in pools:
+        def factory(hints=hints):
+            n = mod.TypeNormalizer(mod.ImplicitParamsGetter())
+            return mod.TypeNormalizer._unfold_union_args, {"self": n, "norm_args": [n.normalize(h) for h in hints]}, {}
+        out.append((repr(hints).replace("typing.", ""), factory))
+    return out
+
+
+IS_U = "py_eq(norm_args[{i}].origin, Union)"
+contract(F, "TypeNormalizer._unfold_union_args", props=["C15"], params={"self": ("const", None), "norm_args": "sym"},
+         consts={"Union": __import__("typing").Union},
+         post={
+             "raises-nothing": "returned",
+             # every member that is not a union is kept
+             "keeps-plain-members": ("implies(returned, forall(lambda i: implies(0 <= i and i < len(norm_args) and not " + IS_U.format(i="i") + ", "
+                                     "exists(lambda k: 0 <= k and k < len(result) and result[k] is norm_args[i]))))"),
+             # every member of a nested union is lifted
+             "lifts-nested-members": ("implies(returned, forall(lambda i, m: implies(0 <= i and i < len(norm_args) and " + IS_U.format(i="i") + " and "
+                                      "0 <= m and m < len(norm_args[i].args), exists(lambda k: 0 <= k and k < len(result) and "
+                                      "result[k] is norm_args[i].args[m]))))"),
+             # nothing is invented
+             "only-members": ("implies(returned, forall(lambda k: implies(0 <= k and k < len(result), exists(lambda i: 0 <= i and i < len(norm_args) and "
+                              "ite(" + IS_U.format(i="i") + ", exists(lambda m: 0 <= m and m < len(norm_args[i].args) and result[k] is norm_args[i].args[m]), "
+                              "result[k] is norm_args[i])))))"),
+         },
+         loops={0: LoopSpec(inv=[
+             "forall(lambda i: implies(0 <= i and i < _i and not " + IS_U.format(i="i") + ", exists(lambda k: 0 <= k and k < len(result) and result[k] is norm_args[i])))",
+             "forall(lambda i, m: implies(0 <= i and i < _i and " + IS_U.format(i="i") + " and 0 <= m and m < len(norm_args[i].args), "
+             "exists(lambda k: 0 <= k and k < len(result) and result[k] is norm_args[i].args[m])))",
+             "forall(lambda k: implies(0 <= k and k < len(result), exists(lambda i: 0 <= i and i < _i and "
+             "ite(" + IS_U.format(i="i") + ", exists(lambda m: 0 <= m and m < len(norm_args[i].args) and result[k] is norm_args[i].args[m]), result[k] is norm_args[i]))))",
+         ])},
+         scenarios=_unfold_scenarios, cover=["returned"])
